@@ -7,9 +7,9 @@ From NV Require Import Rec.Lang Rec.Spec Rec.Mech Rec.MechInv.
 
 (* let s0 = {a | default = 1, b = a + 1} in let s1 = {a = 5} in let s2 = s0 & s1 in ... *)
 Definition h_override : history :=
-  [ SLit [(0%N, {| fprio := PBot; fbody := Some (Num 1) |});
-          (1%N, {| fprio := PNeut; fbody := Some (Add (Var 0%N) (Num 1)) |})];
-    SLit [(0%N, {| fprio := PNeut; fbody := Some (Num 5) |})];
+  [ SLit [(0%N, {| fprio := PBot; fbody := Some (Num 1) ; fdyn := false |});
+          (1%N, {| fprio := PNeut; fbody := Some (Add (Var 0%N) (Num 1)) ; fdyn := false |})];
+    SLit [(0%N, {| fprio := PNeut; fbody := Some (Num 5) ; fdyn := false |})];
     SMerge 0 1 ].
 
 (* what the specification says about that history: s0.b = 2, s2.b = 6 *)
@@ -33,9 +33,9 @@ Definition spec_field_of (h : history) (i : nat) (k : N) : outcome :=
   end.
 
 (* ---- revert = clone: the merged record gets the operand's thunk with its cached environment *)
-Definition cfg_share_assert : cfg := {| c_an := vars; c_unknown := false; c_revert := RevShare; c_patch := PAssert |}.
-Definition cfg_share_skip : cfg := {| c_an := vars; c_unknown := false; c_revert := RevShare; c_patch := PSkip |}.
-Definition cfg_share_overwrite : cfg := {| c_an := vars; c_unknown := false; c_revert := RevShare; c_patch := POverwrite |}.
+Definition cfg_share_assert : cfg := {| c_an := vars; c_unknown := false; c_revert := RevShare; c_patch := PAssert; c_wrap_dyn := false |}.
+Definition cfg_share_skip : cfg := {| c_an := vars; c_unknown := false; c_revert := RevShare; c_patch := PSkip; c_wrap_dyn := false |}.
+Definition cfg_share_overwrite : cfg := {| c_an := vars; c_unknown := false; c_revert := RevShare; c_patch := POverwrite; c_wrap_dyn := false |}.
 
 (* with the assertion of init_cached in place the evaluation of the merged record panics *)
 Theorem revert_keeps_cache_panics :
@@ -57,11 +57,11 @@ Theorem revert_keeps_cache_overwrite_refuted :
 Proof. exists h_override, 0, 1%N. split; vm_compute; reflexivity. Qed.
 
 (* ---- revert resets the operand's own thunk: the operand is no longer usable with its own values *)
-Definition cfg_inplace : cfg := {| c_an := vars; c_unknown := false; c_revert := RevInPlace; c_patch := PAssert |}.
+Definition cfg_inplace : cfg := {| c_an := vars; c_unknown := false; c_revert := RevInPlace; c_patch := PAssert; c_wrap_dyn := false |}.
 
 Theorem inplace_revert_refuted :
   exists h i k, field_of cfg_inplace h i k = Ok 6 /\ spec_field_of h i k = Ok 2
-                /\ field_of cfg_real h i k = Ok 2.
+                /\ field_of cfg_fixed h i k = Ok 2.
 Proof. exists h_override, 0, 1%N. repeat split; vm_compute; reflexivity. Qed.
 
 (* ---- an analysis that skips a syntactic position (here: the else-branch of a conditional) *)
@@ -74,12 +74,12 @@ Fixpoint vars_skip_else (t : tm) : list N :=
   end.
 
 Definition cfg_incomplete : cfg :=
-  {| c_an := vars_skip_else; c_unknown := false; c_revert := RevFresh; c_patch := PAssert |}.
+  {| c_an := vars_skip_else; c_unknown := false; c_revert := RevFresh; c_patch := PAssert; c_wrap_dyn := false |}.
 
 (* { a = 1, b = if 1 <= 0 then 0 else a } : b gets a standard thunk, a is unbound in it *)
 Definition h_incomplete : history :=
-  [ SLit [(0%N, {| fprio := PNeut; fbody := Some (Num 1) |});
-          (1%N, {| fprio := PNeut; fbody := Some (IfLe (Num 1) (Num 0) (Num 0) (Var 0%N)) |})] ].
+  [ SLit [(0%N, {| fprio := PNeut; fbody := Some (Num 1) ; fdyn := false |});
+          (1%N, {| fprio := PNeut; fbody := Some (IfLe (Num 1) (Num 0) (Num 0) (Var 0%N)) ; fdyn := false |})] ].
 
 Theorem deps_incomplete_refuted :
   exists h i k, field_of cfg_incomplete h i k = Err UnboundId /\ spec_field_of h i k = Ok 1.
@@ -89,10 +89,10 @@ Proof. exists h_incomplete, 0, 1%N. split; vm_compute; reflexivity. Qed.
    another dependency, but the filter of init_cached leaves the missed one out.
    { a = 1, c = 0, b = if c <= 0 then c else a } *)
 Definition h_incomplete2 : history :=
-  [ SLit [(0%N, {| fprio := PNeut; fbody := Some (Num 1) |});
-          (2%N, {| fprio := PBot; fbody := Some (Num 0) |});
-          (1%N, {| fprio := PNeut; fbody := Some (IfLe (Var 2%N) (Num 0) (Var 2%N) (Var 0%N)) |})];
-    SLit [(2%N, {| fprio := PNeut; fbody := Some (Num 7) |})];
+  [ SLit [(0%N, {| fprio := PNeut; fbody := Some (Num 1) ; fdyn := false |});
+          (2%N, {| fprio := PBot; fbody := Some (Num 0) ; fdyn := false |});
+          (1%N, {| fprio := PNeut; fbody := Some (IfLe (Var 2%N) (Num 0) (Var 2%N) (Var 0%N)) ; fdyn := false |})];
+    SLit [(2%N, {| fprio := PNeut; fbody := Some (Num 7) ; fdyn := false |})];
     SMerge 0 1 ].
 
 Theorem deps_incomplete_after_override_refuted :
@@ -102,6 +102,25 @@ Proof. repeat split; vm_compute; reflexivity. Qed.
 
 (* the faithful configuration on the same histories *)
 Example real_on_witnesses :
-  field_of cfg_real h_override 2 1%N = Ok 6 /\ field_of cfg_real h_override 0 1%N = Ok 2 /\
-  field_of cfg_real h_incomplete 0 1%N = Ok 1 /\ field_of cfg_real h_incomplete2 2 1%N = Ok 1.
+  field_of cfg_fixed h_override 2 1%N = Ok 6 /\ field_of cfg_fixed h_override 0 1%N = Ok 2 /\
+  field_of cfg_fixed h_incomplete 0 1%N = Ok 1 /\ field_of cfg_fixed h_incomplete2 2 1%N = Ok 1.
 Proof. repeat split; vm_compute; reflexivity. Qed.
+
+(* ---- the code as it is: the thunk of a dynamically named field is hidden behind a standard thunk,
+   which merge does not revert.   let n = "y" in {b | default = 10, "%{n}" = b + 1} & {b = 5}
+   (b = 0, y = 1): y = 11 in the merge result instead of 6; the real interpreter prints 11 too *)
+Definition h_dynamic : history :=
+  [ SLit [(0%N, {| fprio := PBot; fbody := Some (Num 10); fdyn := false |});
+          (1%N, {| fprio := PNeut; fbody := Some (Add (Var 0%N) (Num 1)); fdyn := true |})];
+    SLit [(0%N, {| fprio := PNeut; fbody := Some (Num 5); fdyn := false |})];
+    SMerge 0 1 ].
+
+Theorem dynamic_field_indirection_refuted :
+  exists h i k, (forall l, In (SLit l) h -> NoDup (lit_names l)) /\
+                field_of cfg_current h i k = Ok 11 /\ spec_field_of h i k = Ok 6 /\
+                field_of cfg_fixed h i k = Ok 6.
+Proof.
+  exists h_dynamic, 2, 1%N. split.
+  - intros l [H|[H|[H|[]]]]; inversion H; subst; cbn; repeat constructor; cbn; intuition discriminate.
+  - repeat split; vm_compute; reflexivity.
+Qed.
